@@ -430,6 +430,11 @@ pub(super) fn execute_order_by<'a, S: GraphSnapshot + 'a>(
         if let Err(err) = params.check_timeout("OrderBy.collect") {
             return PlanIterator::Dynamic(Box::new(std::iter::once(Err(err))));
         }
+        // An error from the input (a runtime error, a tripped resource limit) ends the query
+        // here; pulling the remaining rows would only do work whose result is thrown away.
+        if item.is_err() {
+            return PlanIterator::Dynamic(Box::new(std::iter::once(item)));
+        }
         rows.push(item);
         if let Err(err) = params.check_collection_size("OrderBy.collect", rows.len()) {
             return PlanIterator::Dynamic(Box::new(std::iter::once(Err(err))));
